@@ -53,6 +53,12 @@ func (cs *CachedStore) GetByHeight(ctx context.Context, height uint64) (eds.Acce
 	if err == nil {
 		return acc, nil
 	}
+	// Hold the height lock while the file is opened and put into the cache, like Store.GetByHeight
+	// does. Removal drops the cache entries first and unlinks afterwards, both under the write lock:
+	// without the read lock an accessor loaded in between stays in the cache for a removed height.
+	lock := cs.store.stripLock.byHeight(height)
+	lock.RLock()
+	defer lock.RUnlock()
 	return cs.combinedCache.Second().GetOrLoad(ctx, height, cs.openFile(height))
 }
 
